@@ -1,6 +1,7 @@
 import os, sys
 sys.path.insert(0, os.path.dirname(os.path.dirname(os.path.abspath(__file__))))
 from engine.extract import R
+from specs.common_witprog import FLAG_ENUM, SCRIPT_ERROR, WITPROG_CONSTS, WITPROG_FUNCS, ASSUMPTIONS as WITPROG_ASSUMPTIONS
 
 SH, SC, IC = "src/script/script.h", "src/script/script.cpp", "src/script/interpreter.cpp"
 def opc(name):
@@ -28,9 +29,7 @@ SLICES = [opc(n) for n in ("OP_0", "OP_PUSHDATA1", "OP_PUSHDATA2", "OP_PUSHDATA4
      "rules": [R("head", r"bool CheckMinimalPush\(const std::vector<unsigned char>& data, opcodetype opcode\)", "bool CheckMinimalPush(const ByteVec* data, opcodetype opcode)"),
                R("member:data.size()", r"\bdata\.size\(\)", "data->size", False), R("index:data[0]", r"\bdata\[", "data->data[", False), R("assert", r"\bassert\(", "VERIF_ASSERT(", False)]},
     {"name": "IsOpSuccess", "kind": "func", "file": SC, "head": r"bool IsOpSuccess\(const opcodetype& opcode\)", "rules": [R("head", r"bool IsOpSuccess\(const opcodetype& opcode\)", "bool IsOpSuccess(const opcodetype opcode)")]},
-    {"name": "script_verify_flag_name", "kind": "const", "file": "src/script/interpreter.h", "pat": r"enum class script_verify_flag_name : uint8_t \{[^}]*\};", "emit": r"\g<0>",
-     "rules": [R("enum class -> plain enum of bit positions", r"enum class script_verify_flag_name : uint8_t", "enum script_verify_flag_bits", True), R("enumerator names -> BIT_*", r"\bSCRIPT_VERIFY_(\w+)", r"BIT_SCRIPT_VERIFY_\1", True)]},
-    {"name": "ScriptError", "kind": "const", "file": "src/script/script_error.h", "pat": r"typedef enum ScriptError_t\s*\{[^}]*\} ScriptError;", "emit": r"\g<0>"},
+    FLAG_ENUM, SCRIPT_ERROR,
     {"name": "MAX_SCRIPT_ELEMENT_SIZE", "kind": "const", "file": SH, "pat": r"inline constexpr unsigned int MAX_SCRIPT_ELEMENT_SIZE = (\d+);", "emit": r"static const unsigned int MAX_SCRIPT_ELEMENT_SIZE = \1;"},
     {"name": "MAX_STACK_SIZE", "kind": "const", "file": SH, "pat": r"inline constexpr int MAX_STACK_SIZE = (\d+);", "emit": r"static const int MAX_STACK_SIZE = \1;"},
     {"name": "ExecuteWitnessScript", "kind": "func", "file": IC,
@@ -47,9 +46,11 @@ SLICES = [opc(n) for n in ("OP_0", "OP_PUSHDATA1", "OP_PUSHDATA2", "OP_PUSHDATA4
                R("stub:CastToBool(stack.back())", r"CastToBool\(stack\.back\(\)\)", "WStack_top_is_true(&stack)", False)],
      "loops": [{"match": r"while \(pc < exec_script->n\)", "contract": "LOOP_OPSCAN", "prologue": "GHOST_OPSCAN_STEP(pc)", "required": False},
                {"match": r"\bi_e\b", "contract": "LOOP_ELEMS", "prologue": "GHOST_ELEM_STEP(i_e)", "required": False}]},
-]
+] + WITPROG_CONSTS + WITPROG_FUNCS
+_CONSTS = ("script_verify_flag_name", "ScriptError", "MAX_SCRIPT_ELEMENT_SIZE", "MAX_STACK_SIZE") + tuple(c["name"] for c in WITPROG_CONSTS)
 for _s in SLICES:
-    _s["guard"] = "C12_PASS_EWS" if _s["name"] == "ExecuteWitnessScript" else "C12_PASS_CONSTS" if _s["name"] in ("script_verify_flag_name", "ScriptError", "MAX_SCRIPT_ELEMENT_SIZE", "MAX_STACK_SIZE") else "C12_PASS_FUNCS"
+    _s = _s  # noqa
+    _s["guard"] = "C12_PASS_EWS" if _s["name"] in ("ExecuteWitnessScript", "VerifyWitnessProgram", "IsPayToAnchor") else "C12_PASS_CONSTS" if _s["name"] in _CONSTS else "C12_PASS_FUNCS"
 def H(name, fn, twins=(), **kw):
     d = {"name": name, "enforce": fn, "twins": [{"define": t, "expect": "postcondition|loop_invariant"} for t in twins]}
     d.update(kw)
@@ -59,17 +60,18 @@ PLAN = {
     "harnesses": [H("h_serialize", "CScriptNum_serialize", ["TWIN_SER"], unwind=10), H("h_set_vch", "CScriptNum_set_vch", unwind=9), H("h_from_vch", "CScriptNum_from_vch", ["TWIN_MINIMAL"], replace=["CScriptNum_set_vch"]),
                   H("h_getint", "CScriptNum_getint"), H("h_CastToBool", "CastToBool", ["TWIN_NEGZERO"], loop_contracts=True), H("h_CheckMinimalPush", "CheckMinimalPush", ["TWIN_PUSH"]),
                   H("h_IsOpSuccess", "IsOpSuccess", ["TWIN_SUCCESS"]),
+                  {"name": "h_VerifyWitnessProgram", "enforce": "VerifyWitnessProgram", "twins": [{"define": "TWIN_TAPROOT_OFF", "expect": "postcondition"}]},
                   {"name": "h_ExecuteWitnessScript", "enforce": "ExecuteWitnessScript", "replace": ["IsOpSuccess"], "loop_contracts": True, "twins": [{"define": "TWIN_SUCCESS_AFTER_SIZE", "expect": "postcondition"}]}, 
                   {"name": "h_lemma_scriptnum_roundtrip", "replace": ["CScriptNum_serialize", "CScriptNum_set_vch"], "twins": [{"define": "TWIN_RT", "expect": "assertion"}]}],
     "native": {"src": "replay.cpp", "c_src": "native_slices.c", "repo_sources": ["src/script/script.cpp", "src/script/interpreter.cpp"], "diff_n_quick": 50000, "diff_n_thorough": 3000000,
                "libs": ["libbitcoin_consensus.a", "libbitcoin_util.a", "libbitcoin_clientversion.a", "libbitcoin_crypto.a", "/repo/_build/src/secp256k1/lib/libsecp256k1.a"]},
-    "not_covered": ["EvalScript itself and the witness program dispatch (VerifyWitnessProgram): ExecuteWitnessScript is proved with EvalScript, GetOp decoding and CastToBool as stubs", "GetScriptOp (opcode parsing over iterator references): attempted under contract with a symbolic-size and with a 300-byte buffer; every back end ran out of time or memory, so it is NOT claimed", "EvalScript opcode semantics, stack / element size limits, opcode count, disabled opcodes, MINIMALIF / NULLDUMMY / CLEANSTACK, P2SH, segwit v0 and taproot dispatch, the validation weight budget, the comparison with a reference interpreter -- "
+    "not_covered": ["EvalScript itself (opcode semantics, opcode count, CHECKMULTISIG, the consumption of the validation weight budget) and VerifyScript's non-witness part (P2SH, CLEANSTACK, SIGPUSHONLY): ExecuteWitnessScript and VerifyWitnessProgram are proved with EvalScript, GetOp decoding, CastToBool, hashing and signature checks as stubs", "GetScriptOp (opcode parsing over iterator references): attempted under contract with a symbolic-size and with a 300-byte buffer; every back end ran out of time or memory, so it is NOT claimed", "EvalScript opcode semantics, stack / element size limits, opcode count, disabled opcodes, MINIMALIF / NULLDUMMY / CLEANSTACK, P2SH, segwit v0 and taproot dispatch, the validation weight budget, the comparison with a reference interpreter -- "
                     "a 2000-line interpreter over std::vector stacks is outside the extractor's subset; only the number / push / opcode leaves are under contract"],
-    "assumptions": ["std::vector<unsigned char> is a ByteVec (data, size, ghost capacity); push_back within capacity 9 for serialize; pvchRet->assign(first, last) records the span (a view) instead of copying",
+    "assumptions": [*WITPROG_ASSUMPTIONS, "std::vector<unsigned char> is a ByteVec (data, size, ghost capacity); push_back within capacity 9 for serialize; pvchRet->assign(first, last) records the span (a view) instead of copying",
                     "ReadLE16 / ReadLE32 are little-endian byte reads (VERIF_STUB in spec.c)", "set_vch is contracted for at most 7 bytes (callers pass at most 5: the 4-byte limit, 5 for lock times); 8 bytes with the top bit set would shift into the sign bit"],
     "manifest": {
         "category": "proof",
-        "text": "partial (number / push / opcode leaves): CScriptNum::serialize emits the minimal little-endian sign-magnitude encoding that decodes back to the value for every int64 (empty for 0; at most 4 bytes iff |v| < 2^31); set_vch decodes it; the vector constructor throws exactly when the operand is longer than the limit or, under MINIMALDATA, not minimally encoded (negative zero and padded forms included), and otherwise yields the decoded value; getint saturates; "
+        "text": "partial (number / push / opcode leaves, witness dispatch): VerifyWitnessProgram follows BIP141/BIP341 -- P2WSH runs the last element as script when its SHA256 is the program, P2WPKH needs exactly two elements, other v0 lengths fail; a v1 32-byte non-P2SH program is anyone-can-spend without TAPROOT, else annex removal (0x50), key path with one element, script path with control-block size 33+32k (k<=128), commitment check, leaf 0xc0 run as tapscript with validation weight budget = serialized witness size + 50, other leaf versions / witness versions succeed unless discouraged; CScriptNum::serialize emits the minimal little-endian sign-magnitude encoding that decodes back to the value for every int64 (empty for 0; at most 4 bytes iff |v| < 2^31); set_vch decodes it; the vector constructor throws exactly when the operand is longer than the limit or, under MINIMALDATA, not minimally encoded (negative zero and padded forms included), and otherwise yields the decoded value; getint saturates; "
                 "ExecuteWitnessScript applies the tapscript rules in BIP342 order -- an OP_SUCCESSx opcode met before any undecodable opcode decides the spend (success, or DISCOURAGE_OP_SUCCESS) before the initial stack limit (1000) and the 520-byte element limit are looked at; otherwise an undecodable opcode fails, then the stack limit, then (all witness versions) every element must be at most 520 bytes, EvalScript must succeed and leave exactly one true element; CastToBool is false exactly for all-zero and negative-zero byte strings of any length; CheckMinimalPush is the BIP62 table; IsOpSuccess is the BIP342 set;",
         "note": "Not covered: the interpreter itself (the bulk of the statement). Trusted: vector shim, extraction rules.",
         "technique": "CBMC function contracts (structural unwinding for the <= 9-byte number loops, loop contract for CastToBool) on extracted script.h / script.cpp / interpreter.cpp leaf functions, contract-only round-trip lemma",
